@@ -1023,6 +1023,46 @@ def rule_A5(ctx):
     ctx.analysed(out)
 
 
+_A6_SPEC = """
+def write_topology_report(in_file, out_file, topologies_archive=None, top_trees=float("inf")):
+    if top_trees == maxsize:
+        top_trees = float("inf")
+    with gzip.GzipFile(in_file, "rb") as fh:
+        results = pickle.load(fh)
+    topologies_dict = create_topology_dict_from_trace(results)
+    topology_df = create_topology_dataframe(topologies_dict.values())
+    topology_df.to_csv(out_file, index=False, sep="\\t")
+    if topologies_archive is not None:
+        create_topologies_archive(topology_df, results, top_trees, topologies_dict, topologies_archive)
+"""
+
+
+def rule_A6(ctx):
+    """The report a user reads is the ranked frame itself: written to out_file, built from the unique-topology
+    dictionary of the loaded trace; the archive (when asked for) is cut from the same frame and dictionary."""
+    from ..formula import same_effects, spec
+
+    prog = ctx.prog
+    ctx.rule("A6", "write_topology_report writes the ranked frame (create_topology_dataframe over the unique topologies of the loaded trace) to out_file on every path, and hands the same frame, trace and dictionary to the archive writer when an archive is requested", 1)
+    f = prog.fn(PT + "write_topology_report")
+    NI6 = ["create_topology_dict_from_trace", "create_topology_dataframe", "create_topologies_archive"]
+    ex = extract(prog, f, no_inline=NI6)
+    sp = spec(prog, _A6_SPEC, f, no_inline=NI6)
+    keep = {".to_csv", "create_topologies_archive"}
+
+    def effects(evs):
+        out = []
+        for e in evs:
+            if e.name in keep:
+                if e.name == ".to_csv":
+                    e.kwargs = {}  # separator / index column: the file's dialect is not part of the statement
+                out.append(e)
+        return out
+
+    same_effects(ctx, "A6", "write_topology_report: report and archive effects", f, effects(ex.events), effects(sp.events), "file effects")
+    ctx.analysed(f)
+
+
 def run(ctx):
     ctx.assume("pandas sort_values / reset_index / iloc behave as documented; ties between equal scores are outside the property")
     ctx.assume("Tree equality and hashing identify a topology (clades and outliers): decided by C03.I1, used here as the dictionary key")
@@ -1032,12 +1072,20 @@ def run(ctx):
     rule_A3(ctx)
     rule_A4(ctx)
     rule_A5(ctx)
+    rule_A6(ctx)
 
 
 # ----------------------------------------------------------------------------- self-test catalogue
 _P = "phyclone/process_trace/process_trace.py"
 _R = "phyclone/run.py"
 SELFTEST = [
+    # ---- A6
+    {"name": "A6-report-not-written", "kind": "break", "rule": "A6", "file": _P, "old": '    topology_df.to_csv(out_file, index=False, sep="\\t")\n\n    print("Topology report created', "new": '    print("Topology report created'},
+    {"name": "A6-report-written-to-archive-path", "kind": "break", "rule": "A6", "file": _P, "old": 'topology_df.to_csv(out_file, index=False, sep="\\t")', "new": 'topology_df.to_csv(topologies_archive, index=False, sep="\\t")'},
+    {"name": "A6-report-only-with-archive", "kind": "break", "rule": "A6", "file": _P, "old": '    topology_df.to_csv(out_file, index=False, sep="\\t")\n\n    print("Topology report created, saved as: {}".format(out_file))\n\n    if topologies_archive is not None:\n', "new": '    if topologies_archive is not None:\n        topology_df.to_csv(out_file, index=False, sep="\\t")\n'},
+    {"name": "A6-archive-when-not-requested", "kind": "break", "rule": "A6", "file": _P, "old": "    if topologies_archive is not None:\n        print()\n        print(\"#\" * 50)\n        if top_trees", "new": "    if topologies_archive is None:\n        print()\n        print(\"#\" * 50)\n        if top_trees"},
+    {"name": "benign-A6-comma-separated", "kind": "benign", "file": _P, "old": 'topology_df.to_csv(out_file, index=False, sep="\\t")', "new": 'topology_df.to_csv(out_file, index=False, sep=",")'},
+    {"name": "benign-A6-split-frame", "kind": "benign", "file": _P, "old": "    topology_df = create_topology_dataframe(topologies_dict.values())\n", "new": "    unique = topologies_dict.values()\n    topology_df = create_topology_dataframe(unique)\n    print(len(topologies_dict))\n"},
     # ---- A1
     {"name": "A1-skip-first-entry", "kind": "break", "rule": "A1", "file": _P, "old": 'for i, x in enumerate(chain_results["trace"]):', "new": 'for i, x in enumerate(chain_results["trace"][1:]):'},
     {"name": "A1-chain-outside-guard", "kind": "break", "rule": "A1", "file": _P, "old": '                    map_val = x["log_p_one"]\n                    chain_num = curr_chain_num', "new": '                    map_val = x["log_p_one"]\n                chain_num = curr_chain_num'},
